@@ -56,6 +56,9 @@ def judge(ctx, name, raw):
     return findings
 
 
+RK_NAMES = ["bytes", "bufio16", "onebyte", "dataerr", "bufio+onebyte"]
+
+
 def region(fl, cut):
     g = cut.get("g", "?")
     return g.split("|")[0]
@@ -84,12 +87,15 @@ def report(ctx, findings, source):
             if p not in PREDS:
                 continue
             sig = "%s/%s/%s" % (p, fmt_tag(fl), region(fl, ln))
+            rk = fl.get("rk", 0)
+            if rk:      # the reader kind the decoder was handed (truncfam.ReaderKinds); 0 = *bytes.Reader
+                sig += "/" + RK_NAMES[rk]
             out = ln["out"]
             what = ("%s: decoding the first %d of %d bytes of a valid %s file (%s) gave %s%s" %
                     (p, ln["at"], fl["len"], fmt_tag(fl), fl.get("name"), out["kind"],
                      (" with %d vertices" % out["mesh"]["n"]) if out["mesh"]["topo"] != "NULL" else
                      ((": " + out.get("msg", "")[:80]) if out.get("msg") else "")))
-            case = {"family": "trunc", "at": ln["at"]}
+            case = {"family": "trunc", "at": ln["at"], "rk": rk}
             if fl.get("opaque"):
                 case["path"] = fl.get("name")
                 case["seed"] = ctx.seed
@@ -285,7 +291,7 @@ def replay(ctx, path):
         cp = os.path.join(d, "cases.ndjson")
         core.write_ndjson(cp, [case["file"]])
         tp = os.path.join(d, "trace.ndjson")
-        core.run_vh(vh, ["trunc-exec", "-in", cp, "-out", tp, "-only", str(case["at"])])
+        core.run_vh(vh, ["trunc-exec", "-in", cp, "-out", tp, "-only", str(case["at"]), "-rk", str(case.get("rk", 0))])
     else:
         name = os.path.basename(case["path"])
         p = os.path.join(core.REPO, "test-models", name)
@@ -294,7 +300,7 @@ def replay(ctx, path):
             core.run_vh(vh, ["trunc-write", "-dir", d, "-seed", str(case.get("seed", 1) + WRITER_NV.index(nv)), "-nv", str(nv)])
             p = os.path.join(d, name)
         tp = os.path.join(d, "trace.ndjson")
-        core.run_vh(vh, ["trunc-files", "-out", tp, "-only", str(case["at"]), p])
+        core.run_vh(vh, ["trunc-files", "-out", tp, "-only", str(case["at"]), "-rk", str(case.get("rk", 0)), p])
     raw = open(tp).readlines()
     account(ctx, raw)
     for fl, ln, bad, x in judge(ctx, "replay", raw):
